@@ -17,7 +17,6 @@
 package main
 
 import (
-	"fmt"
 	"strings"
 	"time"
 
@@ -282,6 +281,48 @@ func c04Programs(r *Rng, n int) []string {
 
 func hasAssign(q *gojq.Query) bool { return strings.Contains(sexpQuery(q), " assign ") }
 
+// f3Family: the two observations differ ONLY in the class/message of an error raised by a constant-path
+// `=` whose path navigation fails on the value: same outputs before it, optimised = func2Wrap,
+// de-optimised = the bare navigation error; or (program catches it) outputs of the same length
+// differing only in strings, the optimised one starting with "setpath(".
+func f3Family(p *prog, a, b outcome) bool {
+	if !hasAssign(p.query) {
+		return false
+	}
+	if len(a.outs) != len(b.outs) {
+		return false
+	}
+	nav := map[string]bool{"(err expectedObject _)": true, "(err expectedArray _)": true, "(err objectKeyNotString _)": true, "(err arrayIndexNotNumber _)": true}
+	endsOK := a.ending == b.ending || (a.ending == "(err func2Wrap _)" && nav[b.ending])
+	if !endsOK {
+		return false
+	}
+	setpathPrefix := Hexs([]byte("setpath("))
+	for i := range a.outs {
+		if a.outs[i] == b.outs[i] {
+			continue
+		}
+		if !strings.Contains(p.src, "catch") || !strings.Contains(a.outs[i], "(s "+setpathPrefix) {
+			return false
+		}
+	}
+	return true
+}
+
+// the canonical F3 case, compared on every run (its text is the key of the known finding)
+func canonicalF3(c *Ctx) {
+	p, ok1 := prepare(".a = 1")
+	v, ok2 := prepare("(.a | .) = 1")
+	if !ok1 || !ok2 {
+		return
+	}
+	a := runProg(p, false, nil, time.Second)
+	b := runProg(v, false, nil, time.Second)
+	if obsString(a, false) != obsString(b, false) {
+		c.Violation("(c04-F3 (program .a = 1) (variant (.a | .) = 1) (input false) (optimised %s) (deoptimised %s))", a.ending, b.ending)
+	}
+}
+
 func obsString(oc outcome, noClass bool) string {
 	e := oc.ending
 	if noClass && strings.HasPrefix(e, "(err ") && !strings.HasPrefix(e, "(err user") {
@@ -299,6 +340,7 @@ func streamC04(c *Ctx) {
 		progs = append(progs, cc.query)
 	}
 	nvar, ncmp := 0, 0
+	canonicalF3(c)
 	byRule := map[int]int{}
 	for _, src := range progs {
 		if dangerous(src) {
@@ -351,13 +393,15 @@ func streamC04(c *Ctx) {
 					continue
 				}
 				ncmp++
-				// a constant-path `=` is compiled to one setpath call: its errors are wrapped
-				// (func2WrapError) while the general reduction raises the navigation error
-				// itself: same position, different class/message (reported as finding F3)
-				noClass := hasAssign(p.query)
-				if obsString(base, noClass) != obsString(oc, noClass) {
-					c.Violation("(c04-differs R%d (program %s) (variant %s) (input %s) (optimised %s) (deoptimised %s))",
-						v.rule, Hexs([]byte(src)), Hexs([]byte(v.p.src)), canon(in, nil), fmt.Sprint(obsString(base, false)), fmt.Sprint(obsString(oc, false)))
+				if obsString(base, false) != obsString(oc, false) {
+					if f3Family(p, base, oc) {
+						// known finding F3 (constant-path `=` shortcut wraps the navigation error):
+						// attributed narrowly; the canonical case is reported on every run
+						c.Count("attributed-F3")
+					} else {
+						c.Violation("(c04-differs R%d (program %s) (variant %s) (input %s) (optimised %s) (deoptimised %s))",
+							v.rule, Hexs([]byte(src)), Hexs([]byte(v.p.src)), canon(in, nil), obsString(base, false), obsString(oc, false))
+					}
 				}
 				c.Count("variant:" + emitCase(c, v.p, in, nil))
 			}
